@@ -13,6 +13,16 @@ CHECKS = {
          "Rejected inputs: error variant, token, exact span and number of tokens pulled from a counting iterator are compared with the shortest non-viable prefix computed by Earley."),
  "C05": ("exploration", "3/C05", "runtime monitor on `expected` lists vs Earley valid-next-terminal sets",
          "Every expected list is checked for soundness (each listed terminal continues the consumed prefix), duplicates, foreign names, and completeness under canonical LR(1)."),
+ "C06": ("exploration", "3/C06 + A.7", "runtime monitor on recorded @L/@R values and spans vs reference location calculus, plus exact table-driven vs recursive-ascent comparison",
+         "Grammars with @L/@R, nullable real nonterminals at the start/middle/end of alternatives and inlined sugar are compiled in all 6 configurations; every location in a result is compared with the reference calculus over the Earley derivation tree (token locations are distinct and gapped, leading gap 0 or 5 so that `default` differs from `start of first token`); both back ends are compared exactly."),
+ "C07": ("exploration", "3/C07", "differential runtime monitor: table-driven vs recursive-ascent parser of the same grammar and construction on identical inputs, injected stream errors and failing actions",
+         "Pure differential over accepted and rejected inputs, user errors from fallible actions and injected lexer errors; expected lists are excluded (C05)."),
+ "C14": ("exploration", "3/C14", "differential runtime monitor (grammar vs grammar + #[inline]) plus action-event-log monitor against the reference evaluator in inlined order",
+         "Each base grammar is paired with variants carrying #[inline] on random subsets of inlinable nonterminals; acceptance, values and user errors are compared on the same inputs and failure plans, and the inlined grammar's action log is compared with the reference order (inlined actions left to right just before the host action)."),
+ "C16": ("exploration", "3/C16 + A.9", "runtime monitor: recovery-tree checker over recorded parse trees (all symbols bound, `@L ! @R` around every error node) + Earley on the grammar without `!`",
+         "Successful parses of grammars with error alternatives on mutated sentences are checked against the six clauses of A.9 (derivation shape, token order, every missing token inside exactly one error span, spans ordered/disjoint, dropped tokens in order, no recovery on valid input)."),
+ "C17": ("exploration", "3/C17 + A.8", "trace monitor over the recorded pull/error/action event log: the first failing event must be the last event and must be returned verbatim",
+         "Stream errors are injected at every kind of position (0, n, random) and fallible actions are told to fail at their k-th invocation; the event log of each execution is checked without any model of the parser, and for sentences the reference evaluator says which action must fail first."),
 }
 checks = []
 for p in props:
